@@ -348,7 +348,7 @@ OPS = ["open", "close", "sense-a", "sense-af", "sense-f", "sense-b",
        "sense-dep", "listen-tta", "listen-ttb", "listen-dep",
        "listen-ttf", "exchange", "max-send", "max-recv", "connect-rdwr",
        "connect-rdwr-stay", "connect-rdwr-beep", "connect-llcp",
-       "connect-card", "exit", "exit-exc"]
+       "connect-card", "exit", "exit-exc", "atexit"]
 
 
 def do_op(w, op):
@@ -367,6 +367,13 @@ def do_op(w, op):
         clf.close()
     elif op == "exit":
         clf.__exit__(None, None, None)
+    elif op == "atexit":
+        # the interpreter exits while the frontend may still be open and
+        # other (daemon) threads may be inside frontend operations: the exit
+        # hooks registered since the case began run in this thread
+        hooks, w.exit_hooks = list(w.exit_hooks), []
+        for fn, a, kw in reversed(hooks):
+            fn(*a, **kw)
     elif op == "exit-exc":
         # the with-block is left by an exception of the application
         try:
@@ -459,6 +466,17 @@ def run(case, ctx):
     w.fail_at = frozenset(int(x) for x in case.get("fail_at", []))
     other = []
     saved_connect = nfc.clf.device.connect
+    import atexit
+    saved_register, saved_unregister = atexit.register, atexit.unregister
+    w.exit_hooks = []
+
+    def _register(fn, *a, **kw):
+        w.exit_hooks.append((fn, a, kw))
+        return fn
+
+    def _unregister(fn):
+        w.exit_hooks[:] = [h for h in w.exit_hooks if h[0] != fn]
+    atexit.register, atexit.unregister = _register, _unregister
     try:
         def connect_driver(path):
             # searching for and initialising the driver IS a driver call of
@@ -499,6 +517,7 @@ def run(case, ctx):
         line_preempted = s.line_preempted
     finally:
         nfc.clf.device.connect = saved_connect
+        atexit.register, atexit.unregister = saved_register, saved_unregister
         s.shutdown()
         vsched.activate(None)
     if case.get("count_lines"):
@@ -557,7 +576,7 @@ def programs():
         "seed": st.integers(0, 255)})
 
 
-FAIL_OPS = OPS + ["close", "close", "exit", "exit", "exit-exc", "open", "sense-a",
+FAIL_OPS = OPS + ["close", "close", "exit", "exit", "exit-exc", "atexit", "open", "sense-a",
                   "exchange", "max-send", "max-recv"]
 
 
@@ -642,6 +661,8 @@ FIXED = [
     [["connect-llcp"], ["listen-ttf", "exit"]],
     [["sense-a", "exchange", "exchange"], ["max-send", "exit-exc", "open"]],
     [["connect-rdwr-stay"], ["exit-exc"]],
+    [["sense-a", "exchange", "exchange", "exchange"], ["max-send", "atexit"]],
+    [["connect-rdwr-stay"], ["atexit"]],
     [["connect-card", "sense-f"], ["exchange"], ["max-send", "max-recv"]],
     [["open", "sense-a", "exchange"], ["open", "listen-dep"]],
 ]
